@@ -33,6 +33,8 @@ check("C01", "reads return the latest write through every layer", [
        "<=2 steps over put/tx/batch/flush, 2 keys", "<=3 steps"),
     ob("VerifC01_ValueShapes", "pkg/engine", "empty, nil, 1- and 2-byte values through memtable, flush and reopen read back as found",
        "<=3 steps over put(4 value shapes)/flush/reopen, 2 keys", "<=4 steps"),
+    ob("VerifC01_ReadFromTables", "pkg/engine", "programs of put+flush / delete+flush / retire-flushed-logs+reopen steps: reads are served by the SSTables and their load order, not by replayed memtables",
+       "2..5 steps, 2 keys", "2..7 steps", q={"budget_s": 400}),
     ob("VerifC01_StorageProgram", "pkg/engine/storage", "storage.Manager level: put/delete/flush/reopen programs, Get vs. model",
        "<=4 steps, 2 keys"),
 ], [SIMFS, CLOCK, HASH, BLOOM, JSON, RAND, LOG, TIERA], ["keys > 2 bytes, values > 2 bytes except where a bulk value is stated", "compaction inside the program (C12)", "programs longer than the stated step bound"])
@@ -48,6 +50,10 @@ check("C03", "transactions are all-or-nothing", [
        "<=3 ops over 2 keys, optional pre-existing key, buffer reuse on/off"),
     ob("VerifC03_FailedCommitNoTrace", "pkg/engine", "a commit that fails because one value does not fit a log record (symbolic position, size within [-20,+1] of the limit) leaves no trace, also not after a later write, close and reopen",
        "3-entry transaction, one oversized entry at position 0..2", reach=("committed", "failed")),
+    ob("VerifC03_CrashInCommit", "pkg/engine", "commit of 2-3 puts, the process dies at any file-system step of the commit (both crash models, torn in-flight write): after recovery all keys of the transaction or none; an acknowledged commit completely. Shapes: small values; values filling two log records completely (batch at the log buffer's capacity)",
+       "2-3 keys; crash at every simfs operation inside begin..commit; torn lengths: every length <=24 bytes else 8 representatives; record-filling values with d in 0..1", q={"budget_s": 300}),
+    ob("VerifC03_CommitVsReader", "pkg/engine", "a committing transaction (2 keys) vs. a reader doing two plain gets in either order or inside a read-only transaction: first read new => second read new; a read-only transaction sees one state",
+       "2 threads, preemption bound 1", "preemption bound 2", q=P1, t=P2, no_validate=True),
 ], [SIMFS, CLOCK, HASH, BLOOM, RAND, LOG, TIERA], [])
 
 check("C05", "scans: exactly the live keys, once, in order, within bounds", [
@@ -87,6 +93,8 @@ check("C09", "the log replays exactly what was appended", [
 check("C10", "log damage is contained", [
     ob("VerifC10_Truncate", "pkg/wal", "log of <=3 entries cut at every byte offset: replay succeeds, delivers every entry that ends before the cut, nothing that was not appended", "<=3 small entries, every offset"),
     ob("VerifC10_FlipByte", "pkg/wal", "one byte at every position replaced by a symbolic different value", "<=2 small entries, every position, every value", q={"budget_s": 300}),
+    ob("VerifC10_DamageThenWriteThenRecover", "pkg/engine/storage", "storage.Manager on a log cut at every offset or with one byte altered: open succeeds, intact prefix recovered; a write acknowledged after the recovery and the recovered operations survive a clean close and a second open",
+       "<=2 small entries, every cut offset, every position x every replacement value"),
 ], [SIMFS, CLOCK, HASH, LOG, TIERA], ["multi-byte damage", "checksum collisions other than single-byte errors (ideal-checksum assumption)"])
 
 check("C11", "an SSTable reads back exactly what was written", [
@@ -120,6 +128,8 @@ check("C17", "every transaction ends and releases the database", [
        "<=4 calls, 2 keys", "<=5 calls"),
     ob("VerifC17_RegistryCleanup", "pkg/transaction", "registry with two transactions of two connections, symbolic ages and idle times: the periodic cleanup body / CleanupConnection rolls back and unregisters exactly the expired / disconnected ones",
        "2 read-only transactions, ages < 24 h, kept 2 s away from the limits (clock margin)"),
+    ob("VerifC17_AbandonedTxIsReaped", "pkg/engine", "a transaction begun through the registry on the real EngineFacade and abandoned: after its idle limit the cleanup body / connection cleanup rolls it back, unregisters it and frees the database lock",
+       "1 transaction (read-only or read-write, with or without a buffered write), preemption bound 1", q=P1, no_validate=True, reach=("done",)),
 ], [CLOCK, LOG, "Tier B scheduler; one-shot timers fire at a scheduler-chosen point"], ["clients holding two transactions at once (excluded by the property)"])
 
 check("C19", "the network API behaves like the embedded API", [
